@@ -21,6 +21,10 @@ type pair struct {
 	// sequencer: some blocks carry a signature, and some of those enter through the sequencer
 	// path (Finalise with a signer) instead of the sync path
 	sequencer bool
+	// optional hooks around a store / revert (C09: a reader's query inside the writer's pending commit);
+	// each returns the function that disarms it
+	aroundStore  func(b *chaingen.Block) func()
+	aroundRevert func() func()
 }
 
 func newPair(c *sim.Ctx, both bool) *pair {
@@ -63,11 +67,16 @@ func (p *pair) store() *chaingen.Block {
 	}
 	for _, n := range p.nodes {
 		var err error
+		disarm := func() {}
+		if p.aroundStore != nil {
+			disarm = p.aroundStore(b)
+		}
 		if finalise {
 			err = n.FinaliseBlock(b)
 		} else {
 			err = n.StoreBlock(b)
 		}
+		disarm()
 		if err != nil {
 			p.c.Fail("valid_block_rejected", "store", "[%s%s] valid block %d (v%s) rejected (sequencer path %v): %v", n.Name, backendName(n), b.B.Number, b.Version, finalise, err)
 		}
@@ -80,7 +89,13 @@ func (p *pair) revert() {
 	h := p.m.Head()
 	p.c.Logf("revert block %d", h.B.Number)
 	for _, n := range p.nodes {
-		if err := n.BC.RevertHead(); err != nil {
+		disarm := func() {}
+		if p.aroundRevert != nil {
+			disarm = p.aroundRevert()
+		}
+		err := n.BC.RevertHead()
+		disarm()
+		if err != nil {
 			p.c.Fail("revert_failed", revertKey(h), "[%s%s] RevertHead of stored block %d failed: %v", n.Name, backendName(n), h.B.Number, err)
 		}
 	}
